@@ -11,7 +11,13 @@ package props
 //   bufio     L2 of the bufio.Writer mirror alone (real bufio over the same fault sink).
 //   truncate  every strict prefix of every produced file is rejected by OpenFile or by the first read
 //             that needs the missing bytes; L2 of the trailer stage against `open.model`.
-//   readat    an io.ReaderAt failing / short-reading at call index i, for every i of open + full read.
+//   readat    an io.ReaderAt failing / short-reading at call index i, for every i of open + full read,
+//             under read histories (sequential, seeks, CopyRows / ReadRowsFrom, dictionary first,
+//             point lookups: bloom filter probes of present keys and lazily read page indexes).
+//   copysrc   (c14_copysrc.go) the source of Writer.WriteRowGroup fails.
+//   compose   (c14_compose.go) one input fails under the composite readers (merges, MultiRowGroup,
+//             ConvertRowGroup, reader adaptors, typed readers); L1 + L2 of the two-way merge over
+//             scripted sources and of the lazy bloom probe.
 
 import (
 	"bufio"
